@@ -192,6 +192,27 @@ func InitSites(n int) {
 	st.segs = make([]Segment, maxSegments)
 }
 
+// ResetBase clears the "executed in a baseline" marks (probe step: per-entry reach).
+//
+//go:norace
+func ResetBase() {
+	for i := range st.siteBase {
+		st.siteBase[i] = 0
+	}
+}
+
+// BaseHit reports whether any site carrying the flag was executed since ResetBase.
+//
+//go:norace
+func BaseHit(flags []uint8, flag uint8) bool {
+	for i := range st.siteBase {
+		if st.siteBase[i] != 0 && i < len(flags) && flags[i]&flag != 0 {
+			return true
+		}
+	}
+	return false
+}
+
 // SetCounting switches baseline yield counting on or off (simulation inactive).
 //
 //go:norace
